@@ -199,6 +199,7 @@ type c18L1Sys struct {
 
 func (y *c18L1Sys) Root() *c16L1State             { return y.inner.Root() }
 func (y *c18L1Sys) Digest(s *c16L1State) [32]byte { return y.inner.Digest(s) }
+
 type c18Export struct{}
 
 func (y *c18L1Sys) Letters(s *c16L1State) []engine.Letter {
